@@ -16,7 +16,7 @@
     lookups, G.edges enumeration), so every insertion order a parser may produce is covered; the
     canonical graphs [template_of] / [base_of] are given for the non-vacuity examples. *)
 From Coq Require Import String.
-From Coq Require Import List Ascii ZArith Bool Lia.
+From Coq Require Import List Ascii ZArith Bool Lia Permutation.
 From CGV Require Import Base.PyBase Base.PyVal Base.NxGraph Resolve.Bonding Resolve.BondingDefs Resolve.BondingCheck
      Resolve.CutCheck Resolve.GraphOps.
 Import ListNotations.
@@ -26,7 +26,9 @@ Record cbond := { cb_u : Z; cb_v : Z; cb_ord : pyval; cb_lab : pystr; cb_dollar 
 Record cut := {
   c_atoms : list (Z * attrs);          (* M: atom key, payload attributes *)
   c_bonds : list cbond;                (* M: bonds (label and kind are read for cut bonds only) *)
-  c_parts : list (pystr * list Z) }.   (* fragment name, atoms in template order; parts in base-node order *)
+  c_parts : list (pystr * list Z);     (* fragment name, atoms in template order; parts in base-node order *)
+  c_dord : list (Z * list pystr) }.    (* optional: the order in which an atom's descriptors are written (a permutation
+                                          of the descriptors of its cut bonds); atoms not listed: bond-list order *)
 
 Definition zmem (x : Z) (l : list Z) : bool := existsb (Z.eqb x) l.
 Arguments zmem : simpl never.
@@ -63,9 +65,13 @@ Definition kind_char (side : bool) (b : cbond) : ascii :=
   if cb_dollar b then "$"%char else if side then ">"%char else "<"%char.
 Definition dtext (side : bool) (b : cbond) : pystr := kind_char side b :: dtail b.
 Definition bend (side : bool) (b : cbond) : Z := if side then cb_u b else cb_v b.
-Definition descs (C : cut) (x : Z) : list pystr :=
+Definition descs0 (C : cut) (x : Z) : list pystr :=
   flat_map (fun b => (if Z.eqb (cb_u b) x then [dtext true b] else []) ++ (if Z.eqb (cb_v b) x then [dtext false b] else []))
            (cuts C).
+
+(** the descriptor list of atom x as written: the recorded order when there is one *)
+Definition descs (C : cut) (x : Z) : list pystr :=
+  match find (fun kv => Z.eqb (fst kv) x) (c_dord C) with Some kv => snd kv | None => descs0 C x end.
 
 (** descriptor table of a part whose first atom has fine key k *)
 Fixpoint tbl_from (C : cut) (k : Z) (xs : list Z) : tbl :=
@@ -98,7 +104,8 @@ Record wf_cut (C : cut) : Prop := {
   wc_ends : forall b, In b (c_bonds C) -> In (cb_u b) (flat C) /\ In (cb_v b) (flat C) /\ cb_u b <> cb_v b;
   wc_simple : ForallOrdPairs (fun b b' => ~ same_ends b b') (c_bonds C);   (* a simple graph: no two list entries join the same atoms *)
   wc_labels : NoDup (map cb_lab (cuts C));
-  wc_digits : forall b, In b (cuts C) -> digit_of (cb_ord b) <> None }.
+  wc_digits : forall b, In b (cuts C) -> digit_of (cb_ord b) <> None;
+  wc_dord : forall kv, In kv (c_dord C) -> Permutation (snd kv) (descs0 C (fst kv)) }.
 
 (** decidable form, for examples *)
 Fixpoint nodupzb (l : list Z) : bool := match l with [] => true | x :: r => negb (zmem x r) && nodupzb r end.
@@ -107,13 +114,19 @@ Definition cbond_eqb (b b' : cbond) : bool :=
   && str_eqb (cb_lab b) (cb_lab b') && Bool.eqb (cb_dollar b) (cb_dollar b').
 Definition same_endsb (b b' : cbond) : bool :=
   (Z.eqb (cb_u b) (cb_u b') && Z.eqb (cb_v b) (cb_v b')) || (Z.eqb (cb_u b) (cb_v b') && Z.eqb (cb_v b) (cb_u b')).
+Fixpoint str_perm_b (a b : list pystr) : bool :=
+  match a with
+  | [] => match b with [] => true | _ => false end
+  | x :: r => match remove_first str_eqb x b with Some b' => str_perm_b r b' | None => false end
+  end.
 Definition wf_cutb (C : cut) : bool :=
   nodupzb (flat C)
   && forallb (fun x => zmem x (flat C)) (map fst (c_atoms C)) && forallb (fun x => zmem x (map fst (c_atoms C))) (flat C)
   && forallb (fun b => zmem (cb_u b) (flat C) && zmem (cb_v b) (flat C) && negb (Z.eqb (cb_u b) (cb_v b))) (c_bonds C)
   && pairwise_b (fun b b' => negb (same_endsb b b')) (c_bonds C)
   && nodup_strs (map cb_lab (cuts C))
-  && forallb (fun b => match digit_of (cb_ord b) with Some _ => true | None => false end) (cuts C).
+  && forallb (fun b => match digit_of (cb_ord b) with Some _ => true | None => false end) (cuts C)
+  && forallb (fun kv => str_perm_b (snd kv) (descs0 C (fst kv))) (c_dord C).
 
 (** ---------------------------------------------------------------- what the templates and the base graph must be *)
 Definition reserved : list pystr := [S "fragid"; S "fragname"; S "bonding"; S "ez_isomer_atoms"; S "mapping"].
